@@ -295,8 +295,9 @@ def run_concrete(ct):
     env["CARGO_NET_OFFLINE"] = "true"
     env.pop("RUSTUP_TOOLCHAIN", None)
     m = re.search(r"fn (kani_concrete_playback_\w+)", ct["test"])
-    cmd = ["cargo", "kani", "playback", "-Z", "concrete-playback", "-p", PKG[crate], "--target-dir",
-           os.path.join(TARGET, crate + "_playback"), "--", m.group(1) if m else h]
+    # `cargo kani playback` takes no --target-dir: the playback build goes to its own directory through CARGO_TARGET_DIR
+    env["CARGO_TARGET_DIR"] = os.path.join(TARGET, crate + "_playback")
+    cmd = ["cargo", "kani", "playback", "-Z", "concrete-playback", "-p", PKG[crate], "--", m.group(1) if m else h]
     try:
         p = subprocess.run(cmd, cwd=REPO, env=env, capture_output=True, text=True, timeout=1800)
     finally:
